@@ -8,7 +8,7 @@ from .. import ast as A, gen, values as V, campaign, tlc, speccode
 from . import common
 
 LEVEL = "model_checking"
-CLAUSES = ("C02.canon", "C02.self")
+CLAUSES = ("C02.canon", "C02.self", "C02.stable")
 
 def run(ctx):
     rng = ctx.rng
@@ -43,6 +43,7 @@ def run(ctx):
             for data in (pats if not quick else pats[::2] + [b"\x80", b"\x90", b"\x84", b"\x88", b"\xc0"][:5] if width == 1 else pats):
                 camp.roundtrip_from_bytes(prog, con, data, {})
             camp.sh.maybe_flush()
+        gallery_formats(ctx, camp)
         # spec -> code: on the sessions TLC explores on the model's universe, the four-call session from the same input
         # and the three-call session from the value the specification parsed
         uprogs, ukw, sessions, _ = speccode.explore(ctx, focus="all", part=speccode.part_of(ctx, 32 if quick else 48))
@@ -70,3 +71,53 @@ def run(ctx):
                         noncanon += 1
         ctx.cov["distinct_nontrivial"] = len(nt)
         ctx.cov["accepted_noncanonical_inputs"] = noncanon
+
+
+def gallery_formats(ctx, camp):
+    """the gallery formats on the sample files the repository ships: parse, build, parse, build.  These formats use adapters and
+    lambdas, so they are not programs of the specification; results enter as digests and TLC evaluates C02Stable on them."""
+    import hashlib, json, sys, os
+    from ..check import REPO
+    if REPO not in sys.path:
+        sys.path.insert(0, REPO)
+    try:
+        import deprecated_gallery as dg, gallery as g
+    except Exception as e:
+        ctx.cov["gallery"] = "not importable: %r" % (e,)
+        return
+    D, G = os.path.join(REPO, "tests/deprecated_gallery/blobs"), os.path.join(REPO, "tests/gallery/blobs")
+    # cap_file is left out: its user-written MicrosecAdapter drops the microseconds on encoding
+    cases = [(dg.png_file, D, "sample.png"), (dg.emf_file, D, "emf1.emf"), (dg.bitmap_file, D, "bitmap1.bmp"), (dg.bitmap_file, D, "bitmap4.bmp"), (dg.bitmap_file, D, "bitmap8.bmp"),
+             (dg.bitmap_file, D, "bitmap24.bmp"), (dg.wmf_file, D, "wmf1.wmf"), (dg.gif_file, D, "sample.gif"), (dg.mbr_format, D, "mbr1"), (dg.snoop_file, D, "snoop1"),
+             (dg.pe32_file, D, "python.exe"), (dg.pe32_file, D, "NOTEPAD.EXE"), (dg.elf32_file, D, "ctypes.so"), (g.pe32file, G, "python37-win32.exe"),
+             (g.pe32file, G, "SharpZipLib0860-dotnet20.dll")]
+    def dig(x):
+        return V.VBytes(hashlib.sha256(x).digest())
+    n = 0
+    for fmt, d, name in cases:
+        path = os.path.join(d, name)
+        if not os.path.exists(path):
+            continue
+        with open(path, "rb") as f:
+            data = f.read()
+        calls = []
+        cur = data
+        val = None
+        for step in range(4):
+            try:
+                if step % 2 == 0:
+                    val = fmt.parse(cur)
+                    res = {"ok": True, "v": dig(repr(val).encode()), "err": "", "p": len(cur), "path": []}
+                else:
+                    cur = fmt.build(val)
+                    res = {"ok": True, "v": dig(cur), "err": "", "p": len(cur), "path": []}
+            except Exception as e:
+                res = {"ok": False, "v": V.VNone(), "err": type(e).__name__, "p": 0, "path": []}
+            calls.append(camp.sh.add({"k": "Opaque", "desc": "gallery " + name}, {"op": "parse" if step % 2 == 0 else "build", "events": [], "res": res}, {}, b"", 0, None, None, "gallery"))
+            if not res["ok"]:
+                break
+        if len(calls) == 4:
+            camp.sh.session("C02.stable", calls)
+            n += 1
+    camp.sh.maybe_flush()
+    ctx.cov["gallery_formats_sessions"] = n
